@@ -59,7 +59,7 @@ from ..engine import (
     walk_no_nested,
 )
 from ..report import Report
-from ._chains import PARAMRES, _resolved, _single_defs, exit_values, extract_chain
+from ._chains import PARAMRES, _resolved, _single_defs, default_lookups, exit_values, extract_chain, is_default_lookup, sentinel_names
 from ..pat import find, find1, match, name_of
 
 from ..engine import mutation_sites, parent
@@ -813,9 +813,12 @@ def run(repo: Repo, R: Report) -> None:
     if not n_cfg:
         raise AnalysisError("nodes.py: no function stores <node>.processor_config (2 confirmed by reading)")
     rrv = repo.func(PARAMRES, "resolve_runtime_value")
-    # normal form: `match` lowered to if/elif, a split-off private helper absorbed; `_default_for` stays the call the
-    # chain extraction classifies as the default channel
-    rrv_n = nfunc(repo, PARAMRES, "resolve_runtime_value", keep=("_default_for",))
+    # normal form: `match` lowered to if/elif, a split-off private helper absorbed; the default look-up (found by role:
+    # the helper the resolver hands the processor class and the parameter's name, whatever it is called and wherever
+    # it lives) stays the call the chain extraction classifies as the default channel
+    pmod = repo.module(PARAMRES)
+    lookups = _default_lookup_helpers(repo, pmod, rrv)
+    rrv_n = nfunc(repo, PARAMRES, "resolve_runtime_value", keep=tuple(lookups))
     chain = extract_chain(rrv_n)
     want = [("config", "config"), ("context", "context"), ("default", "default"), ("always", "raise:KeyError")]
     R.check(chain == want, r_res, PARAMRES, "resolve_runtime_value", f"first-match chain {chain}", f"run-time precedence is not [config, context, default, KeyError]; got {chain}", rrv.lineno)
@@ -825,11 +828,32 @@ def run(repo: Repo, R: Report) -> None:
     forms = {
         "config": ("processor_config[name]",),
         "context": ("context.get_value(name)", "context[name]"),
-        "default": ("_default_for(processor_cls, name)", "_default_for(processor_cls=processor_cls, name=name)"),
     }
-    bad_exit = next((f"`{ast.unparse(v)[:60]}` ({lab})" for lab, v in exits if ast.unparse(v) not in forms.get(lab, ())), None)
-    ok = bad_exit is None and {lab for lab, _v in exits} == set(forms)
-    R.check(ok, r_res, PARAMRES, "resolve_runtime_value", "returns config[name] / context.get_value(name) / _default_for(cls, name)", f"a channel returns something other than the value stored under the parameter's own name: {bad_exit or sorted({lab for lab, _v in exits})}", rrv.lineno)
+
+    def plain_default_lookup(v: ast.AST) -> bool:
+        """`<helper>(<processor class>, <name>)`: exactly the two, each bound to the helper parameter that plays its
+        role (the class is the one the helper asks for metadata / attributes, the name is a plain key)."""
+        if not is_default_lookup(v) or len(v.args) + len(v.keywords) != 2:
+            return False
+        if {dotted_name(a) for a in list(v.args) + [k.value for k in v.keywords]} != {"processor_cls", "name"}:
+            return False
+        try:
+            tg = repo.resolve_call(pmod, v)
+        except Exception:
+            tg = []
+        if len(tg) != 1 or not isinstance(tg[0][1], FuncNode):
+            return not v.keywords and dotted_name(v.args[0]) == "processor_cls"
+        H = tg[0][1]
+        b = _call_args(v, tuple(a.arg for a in H.args.posonlyargs + H.args.args + H.args.kwonlyargs))
+        if not b or len(b) != 2:
+            return False
+        role = {dotted_name(e): p_ for p_, e in b.items()}
+        receivers = {x.value.id for x in ast.walk(H) if isinstance(x, ast.Attribute) and isinstance(x.value, ast.Name)}
+        return role.get("processor_cls") in receivers and role.get("name") not in receivers
+
+    bad_exit = next((f"`{ast.unparse(v)[:60]}` ({lab})" for lab, v in exits if not (plain_default_lookup(v) if lab == "default" else ast.unparse(v) in forms.get(lab, ()))), None)
+    ok = bad_exit is None and {lab for lab, _v in exits} == set(forms) | {"default"}
+    R.check(ok, r_res, PARAMRES, "resolve_runtime_value", "returns config[name] / context.get_value(name) / <default look-up>(cls, name)", f"a channel returns something other than the value stored under the parameter's own name: {bad_exit or sorted({lab for lab, _v in exits})}", rrv.lineno)
 
     # ------------------------------------------------------------------ D2
     r_gate = R.rule("C01-D2-type-gate", "a data node runs only after issubclass(type(data), processor.input_data_type()) held for the data it is given (else TypeError), and the payload handed to the node is the caller's (only None is normalised)", 4)
@@ -919,6 +943,7 @@ def run(repo: Repo, R: Report) -> None:
 
     # ------------------------------------------------------------------ D3
     r_probe = R.rule("C01-D3-probe-and-operation-dataflow", "probe nodes return the input data unchanged and write the probe result under self.context_key on every path; operation nodes return the processor result as data", 6)
+    r_stay = R.rule("C01-D24-probe-result-stays-under-its-key", "what a probe node leaves under its context key is the probe result: every other write the node body makes into the run's context (published sweep sequences, injected keys - helpers of the module absorbed) is reachable only behind `key != self.context_key`, and nothing but the processor's result is written under the context key itself", 2)
     def returned_payloads(f: ast.AST, g: CFG) -> Optional[List[Tuple[Dict[str, ast.AST], int]]]:
         """(arguments by name, node) of the Payload(...) built for every value the function returns; None when
         a path returns something else / nothing."""
@@ -988,6 +1013,52 @@ def run(repo: Repo, R: Report) -> None:
 
         bad = gg.must_pass([gg.entry], [gg.ret_exit], covers)
         R.check(not bad and any(is_keyed_write(n) for n in gg.nodes), r_probe, NODES, qn, "update_context(context, self.context_key, <probe result>) on every path", "the probe result is not stored under the node's context key on some path (literal key, skipped when falsy, ...)", f0.lineno, bad[0][1] if bad else None)
+        # ... and stays there: every other write the node body makes into the run's context goes to a key that is
+        # provably not the node's context key (the body is read in normal form: a helper the writes were moved into
+        # is absorbed, so the guard has to be where the write is)
+        me = f.args.args[0].arg if f.args.args else "self"
+
+        def context_writes(n, gg=gg, pl=pl) -> List[Tuple[ast.Call, Optional[ast.AST]]]:
+            """(call, key expression) of every call in statement *n* that writes into the run's context"""
+            out_: List[Tuple[ast.Call, Optional[ast.AST]]] = []
+            if n.ast is None or n.kind != "stmt":
+                return out_
+            for c in calls_in(n.ast):
+                if call_attr(c) == "update_context":
+                    a = _call_args(c, ("context", "key", "value", "index"))
+                    out_.append((c, a.get("key") if a else None))
+                elif isinstance(c.func, ast.Attribute) and c.func.attr in ("set_value", "set_item_value", "__setitem__", "setdefault") and _is_run_input(gg, c.func.value, n.id, pl, "context"):
+                    ks = [x for x in c.args if not isinstance(x, ast.Starred)]
+                    out_.append((c, ks[1] if c.func.attr == "set_item_value" and len(ks) > 1 else (ks[0] if ks and c.func.attr != "set_item_value" else None)))
+            return out_
+
+        n_other = 0
+        for n in gg.nodes:
+            for c, key in context_writes(n):
+                if is_keyed_write(n) and key is not None and dotted_name(_val(gg, key, n.id)[0]) == f"{me}.context_key":
+                    continue
+                n_other += 1
+                kv = _val(gg, key, n.id)[0] if key is not None else None
+                if kv is not None and dotted_name(kv) == f"{me}.context_key":
+                    R.violation(r_stay, NODES, qn, norm(c)[:80], "something other than the processor's result is written under the node's context key: later nodes read that instead of the probe result", c.lineno)
+                    continue
+                if kv is not None and isinstance(kv, ast.Constant):
+                    # a literal key differs from the configured context key only by accident
+                    kv = None
+
+                def other_key(e: ast.AST, use: int, kv=kv, at=n.id, gg=gg, me=me) -> Optional[bool]:
+                    if kv is None or not (isinstance(e, ast.Compare) and len(e.ops) == 1 and isinstance(e.ops[0], (ast.NotEq, ast.Eq))):
+                        return None
+                    a_, b_ = _val(gg, e.left, use)[0], _val(gg, e.comparators[0], use)[0]
+                    for x, y in ((a_, b_), (b_, a_)):
+                        if dotted_name(x) == f"{me}.context_key" and ast.dump(y) == ast.dump(kv) and _same_bindings(gg, kv, use, at):
+                            return isinstance(e.ops[0], ast.NotEq)
+                    return None
+
+                holds, path, _guards = _only_through(gg, other_key, [n.id])
+                R.check(holds, r_stay, NODES, qn, f"`{norm(c)[:70]}` only for a key != {me}.context_key", f"`{norm(c)[:70]}` can write under the node's own context key after the probe result was stored there (no `key != {me}.context_key` in front of it): for a sequence / injected key named like the context key the probe result is overwritten and every later node that reads the key sees the other value", c.lineno, path)
+        if not n_other:
+            R.ok(r_stay, NODES, qn, "no other context write in the node body")
     f0 = repo.func(NODES, "_DataNode._process_single_item_with_context")
     f = _nf(repo, NODES, "_DataNode._process_single_item_with_context")
     gg = CFG(f, may_raise=_no_raise)
@@ -1000,30 +1071,44 @@ def run(repo: Repo, R: Report) -> None:
 
     # ------------------------------------------------------------------ D4
     r_keys = R.rule("C01-D4-declared-key-enforcement", "context writes/deletes are accepted only for declared keys: the validating observer and DataOperation._notify_context_update test membership before writing; context-processor nodes hand the processor a validating observer built from its own created/suppressed keys; the observer is reset after the call", 7)
-    for meth, allowed in (("update", "self._allowed_context_keys"), ("delete", "self._allowed_suppressed_keys")):
+    # the two allowed-key sets are found by role, not by name: the attributes of the validating observer in which its
+    # constructor stores (a set / tuple / list of) its created-keys resp. suppressed-keys argument
+    vinit0 = repo.func(OBS, "_ValidatingContextObserver.__init__")
+    vinit = _nf(repo, OBS, "_ValidatingContextObserver.__init__")
+    gg = CFG(vinit, may_raise=_no_raise)
+    v_self = vinit.args.args[0].arg if vinit.args.args else "self"
+    attr_roles: Dict[str, Set[int]] = {}
+    if len(vinit.args.args) >= 3:
+        for sn in gg.nodes:
+            if sn.kind != "stmt" or not isinstance(sn.ast, (ast.Assign, ast.AnnAssign)) or sn.ast.value is None:
+                continue
+            for t in (sn.ast.targets if isinstance(sn.ast, ast.Assign) else [sn.ast.target]):
+                if isinstance(t, ast.Attribute) and dotted_name(t.value) == v_self:
+                    v, u = _val(gg, sn.ast.value, sn.id)
+                    conv = isinstance(v, ast.Call) and isinstance(v.func, ast.Name) and v.func.id in ("set", "frozenset", "list", "tuple") and len(v.args) == 1 and not v.keywords
+                    role = next((idx for idx in (1, 2) if conv and _is_param(gg, v.args[0], u, vinit.args.args[idx].arg)), 0)
+                    attr_roles.setdefault(t.attr, set()).add(role)
+    allowed_attr = {idx: sorted(a_ for a_, rs in attr_roles.items() if rs == {idx}) for idx in (1, 2)}
+    # an attribute a declared-key argument flows into together with anything else is not "the declared keys"
+    mixed = sorted(a_ for a_, rs in attr_roles.items() if len(rs) > 1 and rs & {1, 2})
+    ok = bool(allowed_attr[1]) and bool(allowed_attr[2]) and not mixed
+    R.check(ok, r_keys, OBS, "_ValidatingContextObserver.__init__", "allowed sets = the constructor arguments", "the allowed key sets are not the declared created / suppressed keys", vinit0.lineno)
+    for meth, idx in (("update", 1), ("delete", 2)):
         f0 = repo.func(OBS, f"_ValidatingContextObserver.{meth}")
         f = _nf(repo, OBS, f"_ValidatingContextObserver.{meth}")
         gg = CFG(f, may_raise=_no_raise)
+        m_self = f.args.args[0].arg if f.args.args else "self"
+        allowed = tuple(f"{m_self}.{a_}" for a_ in allowed_attr[idx])
+        shown = allowed[0] if allowed else f"<the {'created' if idx == 1 else 'suppressed'}-keys set>"
         supers = [n.id for n in gg.nodes if n.ast is not None and n.kind == "stmt" and any(isinstance(c.func, ast.Attribute) and c.func.attr == meth and isinstance(c.func.value, ast.Call) and call_attr(c.func.value) == "super" for c in calls_in(n.ast))]
 
         def member(e: ast.AST, use: int, allowed=allowed, f=f, gg=gg) -> Optional[bool]:
-            if isinstance(e, ast.Compare) and len(e.ops) == 1 and isinstance(e.ops[0], (ast.In, ast.NotIn)) and _is_param(gg, e.left, use, f.args.args[1].arg) and dotted_name(_val(gg, e.comparators[0], use)[0]) == allowed:
+            if isinstance(e, ast.Compare) and len(e.ops) == 1 and isinstance(e.ops[0], (ast.In, ast.NotIn)) and _is_param(gg, e.left, use, f.args.args[1].arg) and dotted_name(_val(gg, e.comparators[0], use)[0]) in allowed:
                 return isinstance(e.ops[0], ast.In)
             return None
 
         holds, path, guards = _only_through(gg, member, supers)
-        R.check(holds and guards > 0 and bool(supers), r_keys, OBS, f"_ValidatingContextObserver.{meth}", f"key in {allowed} dominates super().{meth}", f"an undeclared key can be {'written' if meth == 'update' else 'deleted'} through the validating observer", f0.lineno, path)
-    vinit0 = repo.func(OBS, "_ValidatingContextObserver.__init__")
-    vinit = _nf(repo, OBS, "_ValidatingContextObserver.__init__")
-    gg = CFG(vinit, may_raise=_no_raise)
-    ok = len(vinit.args.args) >= 3
-    for attr, idx in (("self._allowed_context_keys", 1), ("self._allowed_suppressed_keys", 2)):
-        stores = [n for n in gg.nodes if n.kind == "stmt" and isinstance(n.ast, (ast.Assign, ast.AnnAssign)) and n.ast.value is not None and any(dotted_name(t) == attr for t in (n.ast.targets if isinstance(n.ast, ast.Assign) else [n.ast.target]))]
-        ok = ok and len(stores) >= 1
-        for sn in stores:
-            v, u = _val(gg, sn.ast.value, sn.id)
-            ok = ok and isinstance(v, ast.Call) and isinstance(v.func, ast.Name) and v.func.id in ("set", "frozenset", "list", "tuple") and len(v.args) == 1 and not v.keywords and _is_param(gg, v.args[0], u, vinit.args.args[idx].arg)
-    R.check(ok, r_keys, OBS, "_ValidatingContextObserver.__init__", "allowed sets = the constructor arguments", "the allowed key sets are not the declared created / suppressed keys", vinit0.lineno)
+        R.check(holds and guards > 0 and bool(supers), r_keys, OBS, f"_ValidatingContextObserver.{meth}", f"key in {shown} dominates super().{meth}", f"an undeclared key can be {'written' if meth == 'update' else 'deleted'} through the validating observer", f0.lineno, path)
     ncu0 = repo.func(DPROC, "DataOperation._notify_context_update")
     ncu = _nf(repo, DPROC, "DataOperation._notify_context_update")
     gg = CFG(ncu, may_raise=_no_raise)
@@ -1086,13 +1171,16 @@ def run(repo: Repo, R: Report) -> None:
     runs_logic = _hands_on_predicate(repo, repo.module(CPROC), gg, op_kw) if op_kw else (lambda n: False)
     logic = [n.id for n in gg.nodes if n.ast is not None and n.kind == "stmt" and (any(call_attr(c) == "_process_logic" for c in calls_in(n.ast)) or runs_logic(n))]
 
+    obs_attrs = {f"{op_self}.{a_}" for a_ in _observer_attrs(repo)}
+
     def is_reset(n) -> bool:
-        """`self._context_observer = None` (the helper that does it is inlined by the normal form)"""
+        """`self.<observer attribute> = None` (the helper that does it is inlined by the normal form); the attribute is
+        found by role: the one operate_context stores its `context_observer` argument in"""
         if n.kind != "stmt" or not isinstance(n.ast, (ast.Assign, ast.AnnAssign)) or n.ast.value is None:
             return False
         tg = n.ast.targets if isinstance(n.ast, ast.Assign) else [n.ast.target]
         v = _val(gg, n.ast.value, n.id)[0]
-        return any(dotted_name(t) == f"{op_self}._context_observer" for t in tg) and isinstance(v, ast.Constant) and v.value is None
+        return any(dotted_name(t) in obs_attrs for t in tg) and isinstance(v, ast.Constant) and v.value is None
 
     after = [t for l_ in logic for t, _lab in gg.succ[l_]]
     after = [t for t in after if not is_reset(gg.nodes[t])]
@@ -1250,7 +1338,9 @@ def run(repo: Repo, R: Report) -> None:
     for st in rmod.tree.body:
         if isinstance(st, ast.Assign) and isinstance(st.value, ast.Call) and call_name(st.value) == "re.compile" and st.value.args and isinstance(st.value.args[0], ast.Constant):
             patterns[dotted_name(st.targets[0])] = st.value.args[0].value
-    expected = {"rename:": ("_context_renamer_factory", ["src", "dst"]), "delete:": ("_context_deleter_factory", ["key"]), "template:": ("_context_template_factory", ["template", "out"]), "slice:": ("slice", ["proc", "collection"])}
+    facs = _shorthand_factories(repo)
+    fname = lambda pfx: facs[pfx][1].name if pfx in facs else _OLD_FACTORY_NAMES[pfx]
+    expected = {"rename:": (fname("rename:"), ["src", "dst"]), "delete:": (fname("delete:"), ["key"]), "template:": (fname("template:"), ["template", "out"]), "slice:": ("slice", ["proc", "collection"])}
     for prefix, (factory, groups) in expected.items():
         fn_name = regs.get(prefix)
         f = rmod.defs.get(fn_name or "")
@@ -1288,7 +1378,7 @@ def run(repo: Repo, R: Report) -> None:
                                     if isinstance(g2, ast.Call) and call_attr(g2) == "group" and g2.args and isinstance(g2.args[0], ast.Constant):
                                         got.append(g2.args[0].value)
             ok = ok and got == groups
-            if ok and factory == "_context_template_factory" and not by_signature:
+            if ok and prefix == "template:" and not by_signature:
                 kws = [k.arg for k in fc[-1].keywords]
                 ok = kws == ["template", "output_key"]
         R.check(ok, r_sh, RESOLVERS, fn_name or prefix, f"{prefix} -> {factory}({', '.join(groups)})", f"shorthand {prefix} is not resolved by its own pattern with the groups in the documented argument order", getattr(f, "lineno", 0))
@@ -1332,9 +1422,216 @@ def run(repo: Repo, R: Report) -> None:
     _rule_generated_closures(repo, R)
     _rule_product_order(repo, R)
     _rule_declaration_not_rewritten(repo, R)
+    _rule_default_tables(repo, R)
+
+
+# ---------------------------------------------------------------------- D25
+def _global_id(mod, e: ast.AST) -> Optional[str]:
+    """Package-wide identity of a module-level object named by *e* in *mod* (through `from .. import`), else None."""
+    d = dotted_name(e)
+    if not d:
+        return None
+    head, _, rest = d.partition(".")
+    tgt = mod.imports.get(head)
+    if tgt:
+        return tgt + ("." + rest if rest else "")
+    if not rest and (head in mod.defs or any(isinstance(st, (ast.Assign, ast.AnnAssign)) and any(dotted_name(t) == head for t in (st.targets if isinstance(st, ast.Assign) else [st.target])) for st in mod.tree.body)):
+        return f"{mod.dotted}.{head}"
+    return None
+
+
+def _rule_default_tables(repo: Repo, R: Report) -> None:
+    """Interface between the resolver and the tables it reads defaults from.  The resolver decides `there is a default`
+    by identity with one module-level sentinel object; the default look-up returns `<record>.default` of the processor's
+    `parameters` metadata.  Every place that fills such a record from an inspected signature therefore has to translate
+    the signature's own `no default` marker (inspect.Parameter.empty) into that sentinel - exactly there."""
+    r = R.rule("C01-D25-declared-defaults-speak-the-resolver-s-sentinel", "wherever a parameter record of the `parameters` metadata (the record class the default look-up of resolve_runtime_value reads `.default` from) is filled from an inspected signature, its default is `<p>.default` exactly where `<p>.default is not inspect.Parameter.empty` and the resolver's no-default sentinel (the object the resolver compares the looked-up default with by identity) exactly where it is: a record that carries inspect.Parameter.empty makes an unresolvable parameter resolve to that marker (the node runs instead of raising KeyError), a record that carries the sentinel for a parameter with a default makes `default` placement raise", 3)
+    pmod = repo.module(PARAMRES)
+    rrv = repo.func(PARAMRES, "resolve_runtime_value")
+    keep = tuple(_default_lookup_helpers(repo, pmod, rrv))
+    rrv_n = nfunc(repo, PARAMRES, "resolve_runtime_value", keep=keep)
+    lookups = default_lookups(rrv_n)
+    sent_ids = {_global_id(pmod, ast.parse(s_, mode="eval").body) for s_ in sentinel_names(rrv_n)} - {None}
+    # the record class: what the look-up helper tests its table entry against before it returns `.default`
+    rec_ids: Set[str] = set()
+    for c in lookups:
+        try:
+            tg = repo.resolve_call(pmod, c)
+        except Exception:
+            tg = []
+        for hm, H in tg:
+            if not isinstance(H, FuncNode):
+                continue
+            for x in ast.walk(H):
+                if isinstance(x, ast.Call) and isinstance(x.func, ast.Name) and x.func.id == "isinstance" and len(x.args) == 2:
+                    for k in (x.args[1].elts if isinstance(x.args[1], ast.Tuple) else [x.args[1]]):
+                        gid = _global_id(hm, k)
+                        if gid and isinstance((repo.resolve_name(hm, k, x) or (None, None))[1], ast.ClassDef):
+                            rec_ids.add(gid)
+    if not sent_ids or not rec_ids:
+        raise AnalysisError(f"resolve_runtime_value: no-default sentinel ({sorted(sent_ids)}) / parameter record class ({sorted(rec_ids)}) not identified by role")
+
+    def is_empty_marker(e: ast.AST) -> bool:
+        d = dotted_name(e) or ""
+        return d.split(".")[-1] in ("empty", "_empty") and "." in d
+
+    n_sites = 0
+    for m, qn, F in repo.all_functions():
+        sites = [c for c in walk_no_nested(F) if isinstance(c, ast.Call) and _global_id(m, c.func) in rec_ids]
+        if not sites:
+            continue
+        try:
+            f = nfunc(repo, m.rel, qn)
+        except Exception:
+            f = F
+        sites = [c for c in walk_no_nested(f) if isinstance(c, ast.Call) and _global_id(m, c.func) in rec_ids]
+        g = CFG(f, may_raise=_no_raise)
+        for c in sites:
+            a = _call_args(c, ("default", "annotation"))
+            use = _node_of(g, c)
+            if not a or "default" not in a or use is None:
+                continue
+            plain = _vals(g, a["default"], use)
+            if not plain:
+                continue
+            subjects = {ast.dump(v.value) for v, _u in plain if isinstance(v, ast.Attribute) and v.attr == "default"}
+            if not subjects:
+                continue  # not filled from a signature (a literal default, a copied record)
+            repo.consulted.add(m.rel)
+            n_sites += 1
+            subj = sorted(subjects)[0]
+
+            def has_default(e: ast.AST, u: int, subj=subj) -> Optional[bool]:
+                if isinstance(e, ast.Compare) and len(e.ops) == 1 and isinstance(e.ops[0], (ast.Is, ast.IsNot, ast.Eq, ast.NotEq)):
+                    for x, y in ((e.left, e.comparators[0]), (e.comparators[0], e.left)):
+                        if isinstance(x, ast.Attribute) and x.attr == "default" and ast.dump(x.value) == subj and is_empty_marker(y):
+                            return isinstance(e.ops[0], (ast.IsNot, ast.NotEq))
+                return None
+
+            no_default = lambda e, u: (None if has_default(e, u) is None else not has_default(e, u))
+
+            def leaves(e: ast.AST, u: int, pol: Optional[bool], depth: int = 0) -> List[Tuple[ast.AST, Optional[bool]]]:
+                """(value, True: only reached where the parameter has a default / False: only where it has none / None)"""
+                if depth > 10:
+                    return [(e, pol)]
+                if isinstance(e, ast.IfExp):
+                    yes, no = _edges(g, e.test, u, has_default), _edges(g, e.test, u, no_default)
+                    pb = pol if pol is not None else (True if "T" in yes else False if "T" in no else None)
+                    po = pol if pol is not None else (True if "F" in yes else False if "F" in no else None)
+                    return leaves(e.body, u, pb, depth + 1) + leaves(e.orelse, u, po, depth + 1)
+                if isinstance(e, ast.Name):
+                    bs = _bound_values(g, e.id, u)
+                    if bs:
+                        out_: List[Tuple[ast.AST, Optional[bool]]] = []
+                        for v, d in bs:
+                            if isinstance(v, ast.Name) and v.id == e.id and d == g.entry:
+                                out_.append((v, pol))
+                                continue
+                            pd = pol
+                            if pd is None and d != g.entry:
+                                pd = True if _only_through(g, has_default, [d])[0] else False if _only_through(g, no_default, [d])[0] else None
+                            out_ += leaves(v, d, pd, depth + 1)
+                        return out_
+                return [(e, pol)]
+
+            bad: Optional[str] = None
+            if len(subjects) > 1:
+                bad = "the default is read from more than one signature parameter"
+            for v, pol in ([] if bad else leaves(a["default"], use, None)):
+                if isinstance(v, ast.Attribute) and v.attr == "default" and ast.dump(v.value) == subj:
+                    if pol is not True:
+                        bad = f"`{ast.unparse(v)}` is stored as the declared default without `{ast.unparse(v)} is not inspect.Parameter.empty` in front of it: for a parameter without a default the record carries inspect.Parameter.empty, which is not the resolver's sentinel - the resolver hands that marker to the processor instead of raising KeyError for the unresolvable parameter"
+                        break
+                elif _global_id(m, v) in sent_ids:
+                    if pol is not False:
+                        bad = f"the no-default sentinel `{ast.unparse(v)}` is stored although the signature parameter may have a default (not decided by `<p>.default is inspect.Parameter.empty`): a parameter left to its default raises KeyError at this node"
+                        break
+                elif is_empty_marker(v):
+                    bad = f"`{ast.unparse(v)}` is stored as the declared default: it is not the resolver's sentinel"
+                    break
+                elif pol is False:
+                    bad = f"`{ast.unparse(v)[:50]}` is stored for a parameter without a default instead of the resolver's no-default sentinel: the resolver takes it for a declared default, an unresolvable parameter does not raise KeyError"
+                    break
+            R.check(bad is None, r, m.rel, qn, f"`{norm(c)[:60]}`: default = <p>.default if <p>.default is not inspect.Parameter.empty else <sentinel>", bad or "", c.lineno)
+    if not n_sites:
+        raise AnalysisError("no parameter record filled from an inspected signature found (3 confirmed by reading: DataOperation / ContextProcessor _retrieve_parameter_details, _IOOperationFactory.create_data_operation)")
 
 
 # ---------------------------------------------------------------------- D9
+_OLD_FACTORY_NAMES = {"rename:": "_context_renamer_factory", "delete:": "_context_deleter_factory", "template:": "_context_template_factory"}
+
+
+def _shorthand_factories(repo: Repo) -> Dict[str, Tuple[str, ast.AST]]:
+    """prefix -> (module path, function) of the factory that generates the processor class of a rename: / delete: /
+    template: shorthand, found by role: the package function the resolver registered for the prefix returns the result
+    of, and that defines (nested) a method asking for a context write / deletion.  Where the role cannot be followed
+    the name confirmed by reading (in factory.py) is the fallback."""
+    out: Dict[str, Tuple[str, ast.AST]] = {}
+    writers, deleters = _notifier_names(repo)
+    if repo.has_module(RESOLVERS):
+        rmod = repo.module(RESOLVERS)
+        regs: Dict[str, str] = {}
+        for F in [n for n in ast.walk(rmod.tree) if isinstance(n, FuncNode)]:
+            for c in calls_in(F):
+                if call_attr(c) == "register_resolver" and len(c.args) == 2 and isinstance(c.args[0], ast.Constant) and isinstance(c.args[0].value, str):
+                    regs.setdefault(c.args[0].value, dotted_name(c.args[1]) or "")
+        for prefix in _OLD_FACTORY_NAMES:
+            f = rmod.defs.get(regs.get(prefix, ""))
+            if not isinstance(f, FuncNode):
+                continue
+            cands: List[Tuple[str, ast.AST]] = []
+            for c in calls_in(f):
+                try:
+                    tg = repo.resolve_call(rmod, c)
+                except Exception:
+                    tg = []
+                for m, F in tg:
+                    if isinstance(F, FuncNode) and any(isinstance(n, FuncNode) and n is not F and any(call_attr(x) in writers | deleters for x in calls_in(n)) for n in ast.walk(F)):
+                        if not any(F is y for _r, y in cands):
+                            cands.append((m.rel, F))
+            if len(cands) == 1:
+                out[prefix] = cands[0]
+    for prefix, nm in _OLD_FACTORY_NAMES.items():
+        if prefix not in out and repo.has_module(CFACT) and isinstance(repo.module(CFACT).defs.get(nm), FuncNode):
+            out[prefix] = (CFACT, repo.module(CFACT).defs[nm])
+    return out
+
+
+def _default_lookup_helpers(repo: Repo, pmod, rrv: ast.AST) -> List[str]:
+    """Names of the helpers that look a parameter's declared default up, by role: what the resolver calls with the
+    processor class and the parameter's name, and every private function of the resolver's module that can return a
+    module-level object some identity test (`is` / `is not`) of the module compares against - the no-default sentinel.
+    These stay calls in the resolver's normal form (any other private helper the chain was split into is absorbed)."""
+    out = {(dotted_name(c.func) or "").split(".")[-1] for c in default_lookups(rrv)}
+    ident = {dotted_name(x) for n in ast.walk(pmod.tree) if isinstance(n, ast.Compare) and any(isinstance(o, (ast.Is, ast.IsNot)) for o in n.ops) for x in [n.left] + list(n.comparators) if isinstance(x, ast.Name)}
+    for H in pmod.tree.body:
+        if isinstance(H, FuncNode) and H is not rrv and H.name.startswith("_"):
+            bound = _fn_params(H) | {x.id for x in walk_no_nested(H) if isinstance(x, ast.Name) and isinstance(x.ctx, (ast.Store, ast.Del))}
+            if any(isinstance(n, ast.Return) and isinstance(n.value, ast.Name) and n.value.id in ident and n.value.id not in bound for n in walk_no_nested(H)):
+                out.add(H.name)
+    return sorted(x for x in out if x)
+
+
+def _observer_attrs(repo: Repo) -> Set[str]:
+    """Attribute(s) of a context processor that hold the active observer, by role: whatever
+    `ContextProcessor.operate_context` (normal form: setter helpers inlined) stores its `context_observer`
+    argument in."""
+    opn = nfunc(repo, CPROC, "ContextProcessor.operate_context")
+    if not opn.args.args:
+        return set()
+    g = CFG(opn, may_raise=_no_raise)
+    me = opn.args.args[0].arg
+    out: Set[str] = set()
+    for n in g.nodes:
+        if n.kind == "stmt" and isinstance(n.ast, (ast.Assign, ast.AnnAssign)) and n.ast.value is not None:
+            for t in (n.ast.targets if isinstance(n.ast, ast.Assign) else [n.ast.target]):
+                if isinstance(t, ast.Attribute) and dotted_name(t.value) == me and _is_param(g, n.ast.value, n.id, "context_observer"):
+                    out.add(t.attr)
+    if not out:
+        raise AnalysisError("ContextProcessor.operate_context: the attribute that receives the `context_observer` argument was not found")
+    return out
+
+
 def _no_raise(_part: ast.AST) -> Set[str]:
     return set()
 
@@ -1467,9 +1764,10 @@ def _rule_forwarding(repo: Repo, R: Report) -> None:
             return any(isinstance(t, ast.Subscript) and _is_param(g, t.slice, use, key_p) and _rooted_in_param(g, t.value, use, ctx_p) for t in tg)
         forwarded(OBS, f"_ContextObserver.{helper}", is_mut, f"every path mutates `context` under `key` ({'/'.join(muts)} or item store)", f"{helper} returns normally on some path without touching the context")
     # context processor -> its observer
+    obs_attr_names = _observer_attrs(repo)
     for meth, obs_meth in (("_notify_context_update", "update"), ("_notify_context_deletion", "delete")):
         def is_obs(f, g, st, use, obs_meth=obs_meth) -> bool:
-            return use is not None and any(isinstance(c.func, ast.Attribute) and c.func.attr == obs_meth and dotted_name(_val(g, c.func.value, use)[0]) == "self._context_observer" and _is_param(g, first_arg(c, "key"), use, f.args.args[1].arg) for c in calls_in(st))
+            return use is not None and any(isinstance(c.func, ast.Attribute) and c.func.attr == obs_meth and dotted_name(_val(g, c.func.value, use)[0]) in {f"{f.args.args[0].arg}.{a_}" for a_ in obs_attr_names} and _is_param(g, first_arg(c, "key"), use, f.args.args[1].arg) for c in calls_in(st))
         forwarded(CPROC, f"ContextProcessor.{meth}", is_obs, f"self._context_observer.{obs_meth}(key, ...) on every path", f"a context processor's {obs_meth} request is dropped on some path instead of being forwarded to the (validating) observer")
 
 
@@ -1480,15 +1778,21 @@ CFACT = "semantiva/context_processors/factory.py"
 def _rule_shorthand_processors(repo: Repo, R: Report) -> None:
     r = R.rule("C01-D11-shorthand-processors-act-on-presence", "the processors generated for rename:/delete:/template: perform their declared write/delete whenever the consumed key was resolved (the only condition allowed in front of it is the presence test `key in kwargs`; a test on the resolved *value*, `kwargs.get(key) is not None` included, skips a key that is present and holds None / 0 / ''), on the declared keys, with the resolved value", 4)
 
-    def logic_of(factory: str) -> Tuple[ast.AST, ast.AST]:
-        fac = repo.func(CFACT, factory)
+    facs = _shorthand_factories(repo)
+
+    def logic_of(prefix: str) -> Tuple[str, ast.AST, ast.AST]:
+        if prefix not in facs:
+            raise AnalysisError(f"{prefix} the factory that generates the shorthand's processor was not found")
+        rel, fac = facs[prefix]
+        repo.consulted.add(rel)
         fns = [n for n in ast.walk(fac) if isinstance(n, FuncNode) and n is not fac and any(call_attr(c) in ("_notify_context_update", "_notify_context_deletion") for c in calls_in(n))]
         if len(fns) != 1 or fns[0].args.kwarg is None:
-            raise AnalysisError(f"{factory}: generated _process_logic(self, **kwargs) not found")
-        return fac, fns[0]
+            raise AnalysisError(f"{fac.name}: generated _process_logic(self, **kwargs) not found")
+        return rel, fac, fns[0]
 
-    def analyse(factory: str, consumed_idx: Optional[int], expect: List[Tuple[str, int]]) -> None:
-        fac, f = logic_of(factory)
+    def analyse(prefix: str, consumed_idx: Optional[int], expect: List[Tuple[str, int]]) -> None:
+        CFACT, fac, f = logic_of(prefix)
+        factory = fac.name
         fparams = [a.arg for a in fac.args.args]
         kw = f.args.kwarg.arg
         defs = _single_defs(f)
@@ -1532,9 +1836,9 @@ def _rule_shorthand_processors(repo: Repo, R: Report) -> None:
                 vals = [a["value"] for a in (_call_args(c, ("key", "value")) for c in calls_in(f) if call_attr(c) == meth) if a and "value" in a]
                 R.check(bool(vals) and all(reads_consumed(v) for v in vals), r, CFACT, f"{factory}._process_logic", f"the value written under {want_key} is the resolved value of {consumed}", "the destination key does not receive the value resolved for the source key", f.lineno)
 
-    analyse("_context_renamer_factory", 0, [("_notify_context_update", 1), ("_notify_context_deletion", 0)])
-    analyse("_context_deleter_factory", 0, [("_notify_context_deletion", 0)])
-    analyse("_context_template_factory", None, [("_notify_context_update", 1)])
+    analyse("rename:", 0, [("_notify_context_update", 1), ("_notify_context_deletion", 0)])
+    analyse("delete:", 0, [("_notify_context_deletion", 0)])
+    analyse("template:", None, [("_notify_context_update", 1)])
 
 
 # ---------------------------------------------------------------------- D12
@@ -2036,8 +2340,11 @@ def _grammar_uses(g: CFG, fn: ast.AST, subject_is) -> List[Tuple[Tuple[str, ...]
 
 def _rule_template_rendering(repo: Repo, R: Report) -> None:
     r = R.rule("C01-D14-template-rendered-by-the-grammar-that-named-its-parameters", "the processor generated for template: renders the template with the same placeholder grammar that extracted the node's parameter names from it (string.Formatter / str.format: `{{` and `}}` are literal braces, `{name}` a field), filling every field with the value resolved for that name: what the loader accepted as literal text stays literal text, and what it turned into a parameter is what gets substituted", 2)
+    facs = _shorthand_factories(repo)
+    if "template:" not in facs:
+        raise AnalysisError("template: the factory that generates the shorthand's processor was not found")
+    CFACT, fac0 = facs["template:"]
     cmod = repo.module(CFACT)
-    fac0 = repo.func(CFACT, "_context_template_factory")
     fac = fac0
     logics = [n for n in ast.walk(fac) if isinstance(n, FuncNode) and n is not fac and n.args.kwarg is not None and any(call_attr(c) == "_notify_context_update" for c in calls_in(n))]
     names_fns = [n for n in ast.walk(fac) if isinstance(n, FuncNode) and n.name == "get_processing_parameter_names"]
